@@ -9,6 +9,6 @@ namespace GambitV.Tie.Py
 open GambitV
 
 theorem io_flow_facts :
-    Gen.pyIoFlow_openAuto = true ∧ Gen.pyIoFlow_openCompressed = true ∧ Gen.pyIoFlow_maybeOpen = true ∧ Gen.pyIoFlow_seqToBytes = true ∧ Gen.pyIoFlow_seqFileOpen = true ∧ Gen.pyIoFlow_seqFileParse = true ∧ Gen.pyIoFlow_seqFileFromPaths = true := by decide
+    Gen.pyIoFlow_openAuto = true ∧ Gen.pyIoFlow_openCompressed = true ∧ Gen.pyIoFlow_maybeOpen = true ∧ Gen.pyIoFlow_seqToBytes = true ∧ Gen.pyIoFlow_seqFileOpen = true ∧ Gen.pyIoFlow_seqFileParse = true ∧ Gen.pyIoFlow_seqFileFromPaths = true ∧ Gen.pyIoFlow_closingIterNext = true ∧ Gen.pyIoFlow_closingIterClose = true ∧ Gen.pyIoFlow_closingIterShape = true := by decide
 
 end GambitV.Tie.Py
